@@ -350,7 +350,7 @@ func step(site uint32) {
 		childAbort = ""
 		panic(Abort{k})
 	}
-	if heapLimit != 0 && Steps&0xfff == 0 {
+	if heapLimit != 0 && inOp[me] && Steps&0xfff == 0 {
 		var ms runtime.MemStats
 		runtime.ReadMemStats(&ms)
 		if ms.HeapAlloc > heapLimit {
